@@ -118,6 +118,12 @@ class Negotiated:
         )
 
         self.local_as = self.sent_open.asn
+        if self.sent_open.asn == AS_TRANS:
+            # our OPEN carries AS_TRANS in the 2-octet field when the local AS needs four: the true AS
+            # is in the ASN4 capability we sent (RFC 6793)
+            sent_asn4 = sent_capa.get(Capability.CODE.FOUR_BYTES_ASN, None)
+            if isinstance(sent_asn4, ASN):
+                self.local_as = sent_asn4
         self.peer_as = self.received_open.asn
         if self.received_open.asn == AS_TRANS and self.asn4:
             asn4_capa = recv_capa.get(Capability.CODE.FOUR_BYTES_ASN, None)
